@@ -31,3 +31,7 @@ def tempo_vs_pt(inp):
             if e1 > 1e-12 or e2 > 5e-6:
                 bad.append({'prefix': True, 'dkmax': K, 'same PT, fewer steps': e1, 'PT built for n steps': e2})
     return {'violates': bool(bad), 'detail': bad[:4]}
+
+
+# thorough tier (bounded native sweeps): (function, inputs, obligation of the open finding it reproduces or None)
+THOROUGH = [('tempo_vs_pt', {}, None)]
